@@ -362,6 +362,39 @@ _amend("C19",
        technique="value lookups repeated after alter / set on the key field",
        text="Lookups by field value follow the data: find_idx on u / name, alter / set, find_idx again on the same key.")
 
+_amend("C02",
+       technique="CodegenConc.tla (several processes over one directory of generated code, one action per step of undill / prepare / "
+                 "_finalize_pycode) model-checked for one and for two model definitions, both schedules replayed with a nested second process",
+       text="Across processes: for parallel workers of one checkout RunsOwnModel, FileWholeAtEnd and AllFinish hold in the model and on the real "
+            "code; for two definitions sharing the directory TLC finds the schedule in which a process imports the other's code after writing "
+            "its own, and the real code follows it (recorded finding).")
+_amend("C04",
+       technique="the implicit rule recomputed from the start and end values of every accepted step (AcceptedStepSatisfiesImplicitRule) and "
+                 "FixedStepIsConfiguredStep in Trace_TDSLoop; faults that drive anti-windup limiters to a limit and back",
+       text="Every accepted step of every recorded run also satisfies T (x1 - x0) = h (theta f1 + (1 - theta) f0), recomputed independently of the "
+            "routine's residual vector for all states no limiter reports as pegged (threshold 50 tol, worst observed 4e-6); with a fixed step the "
+            "configured step is the step in use.")
+_amend("C05",
+       technique="documented mode flags / limits that no shipped case uses (REPCA1, REECA1, REGCA1, IEEEG1, PVD1) set on every device of cases "
+                 "that initialise",
+       text="Flag variants: VCFlag / RefFlag / Fflag, PFFLAG / VFLAG / QFLAG / PFLAG / PQFLAG, Lvplsw, a binding PMAX of a cross-compound governor, "
+            "pqflag; dead bands do not count as limits in the precondition.",
+       note="Model combinations and flag values outside the shipped cases and the listed variants remain undecided.")
+_amend("C08",
+       technique="the analysis reached through other documented flows (TDS.init first, initialisation test off) against the plain flow, and "
+                 "EIG.sweep against fresh Systems carrying each swept value",
+       text="Flows: EIG after an explicit TDS.init (with / without TDS.test_init) and EIG with the test switched off must give the state matrix of "
+            "the plain flow; every point of a parameter sweep (time constants and gains) must carry the spectrum of a fresh System with that value.")
+_amend("C15",
+       technique="csv export of a column selection in the caller's order; csv replay on a system with a coarser step of its own",
+       text="A selection of columns exported in a non-ascending order keeps every value under the label of its column; a replay reproduces the rows "
+            "of the file also when the replaying system's own step is coarser than the file's.")
+_amend("C20",
+       technique="run-time Config.update as a channel; discovery order of the rc file in a scratch HOME / working directory; the effect of a "
+                 "supplied fixed step on the steps taken",
+       text="Also: values supplied through Config.update (valid: effective; outside the alternatives: rejected), the documented search order of "
+            "the rc file (working directory before home, not merged), and TDS.tstep supplied through an option is the step the simulation takes.")
+
 NOT_APPLICABLE = [
     {"property_id": "C07", "reason": "numeric accuracy / convergence order against closed-form and matrix-exponential references: no "
                                      "discrete state to model and TLA+ cannot evaluate the transcendental reference (DESIGN.md 9)"},
